@@ -55,6 +55,7 @@ def focus(ctx, P):
 def run(ctx):
     P = 'C04'
     r_panic(ctx, P)
+    r_loop(ctx, P)
     r_rec(ctx, P)
     focus(ctx, P)
 
@@ -110,6 +111,37 @@ def r_panic(ctx, P, only=None, floors=(1800, 1200, 150)):
     ctx.floor(P + ':panic:floor:tactics', 'sites discharged by tactics', sum(by_tactic.values()), floors[1])
     ctx.extra = dict(getattr(ctx, 'extra', {}), panic_sites=tot, panic_by_tactic=dict(by_tactic), panic_in_baseline=in_base,
                      panic_baseline_stale=len(set(base) - seen), panic_functions=nfun)
+
+
+LOOP_REVIEWED = {
+    'composed::message::reader::sym_encrypted_protected::SymEncryptedProtectedDataReader::<R>::fill_inner':
+        'both arms that pull (BodyRaw, BodyDecryptor) set should_return = true, a constant merged over the match arms (infeasible CFG path '
+        'pull -> not should_return); the loop repeats only for Source::Init, which replace_with turns into BodyRaw',
+}
+
+
+def r_loop(ctx, P):
+    """`... or loop forever`: every loop that pulls from an input source (read / read_line / fill_buf / fill_buffer) has an exit
+    branch whose condition depends on the RESULT of that pull (0 octets / empty buffer / error), not merely on data the call wrote
+    through an out-parameter: at end of input the loop can leave."""
+    n = 0
+    for p, r in sorted(ctx.f.bodies.items()):
+        if panics.skip_body(p, r):
+            continue
+        b = ctx.wrap(r)
+        loops = panics.pull_loops(b)
+        if not loops:
+            continue
+        ctx.functions.add(p)
+        for k, (comp, pulls, ok) in enumerate(loops):
+            n += 1
+            if not ok and p in LOOP_REVIEWED:
+                ctx.ok('%s:loop:eof-exit:%s#%d' % (P, p, k), 'R-loop', 'reviewed: ' + LOOP_REVIEWED[p], function=p, site=site(b, pulls[0]), feature='reviewed')
+                continue
+            ctx.check('%s:loop:eof-exit:%s#%d' % (P, p, k), 'R-loop', 'the input-pulling loop in %s can leave on the result of its pull (end of input terminates it)' % p.split('::')[-1],
+                      ok, function=p, site=site(b, pulls[0]),
+                      missing=None if ok else 'no exit branch of the loop depends on the value returned by the pull call: at end of input the loop spins forever')
+    ctx.floor(P + ':loop:floor', 'loops that pull from an input source', n, 10)
 
 
 def r_rec(ctx, P):
